@@ -194,8 +194,9 @@ PROPS = {
                        "type; for every generic JSON tree and every recursion depth no decoder reaches Panic (a value or an error); the row operations of the engine model "
                        "answer every argument with a row or an error and division/modulo by zero is a domain error; the pinned decoders are refuted by witnesses. Tied to the "
                        "code by decoding structurally corrupted encodings of every wire type with the real UnmarshalJSON (outcome class and decoded value compared with the "
-                       "model), garbled byte strings, corrupted transactions executed in process (panics recovered) and sent as raw JSON-RPC to a real server followed by echo. "
-                       "Partial: encoding/json's scanner and struct-tag decoding, and the engine code below the modelled row operations, are covered by the driver only."),
+                       "model; for the message decoders of Wire/Messages.v - table updates of both formats, monitor_cond_since replies, operation results, monitor requests, "
+                       "whose totality theorems are C19_table_updates(2)_total, C19_monitor_cond_since_reply_total, C19_result_total, C19_monitor_request_total - the outcome class), garbled byte strings, corrupted transactions executed in process (panics recovered) and sent as raw JSON-RPC to a real server followed by echo. "
+                       "Partial: encoding/json's scanner, the struct-tag decoding of whole schemas and of the JSON-RPC envelopes, and the engine code below the modelled row operations, are covered by the driver only."),
         "level_note": ("Trusted: Coq kernel + vm_compute, std++; Go harness; encoding/json. A panic observed in the implementation is reported with the input as replay; "
                        "the server part runs in a child process because a panic in a connection goroutine kills the process."),
         "rule": ("part A: valid encodings of set/map/uuid/row/condition/mutation/base type/column type/column (modelled) and operation(s)/table updates (both formats)/"
